@@ -63,9 +63,12 @@ fn main() {
 		"C09" => props::c09::run(&ctx, &mut rep),
 		"C10" => props::c10::run(&ctx, &mut rep),
 		"C11" => props::c11::run(&ctx, &mut rep),
+		"C12" => props::c12::run(&ctx, &mut rep),
 		"C13" => props::c13::run(&ctx, &mut rep),
 		"C14" => props::c14::run(&ctx, &mut rep),
 		"C15" => props::c15::run(&ctx, &mut rep),
+		"C16" => props::c16::run(&ctx, &mut rep),
+		"C17" => props::c17::run(&ctx, &mut rep),
 		"C19" => props::c19::run(&ctx, &mut rep),
 		_ => {
 			eprintln!("unknown property {prop}");
